@@ -11,12 +11,16 @@ TYPES = {  # tag: (C++ type, width, signed)
 POLICIES = {"wrd": "WRD_Extended_Number_Policy", "cop": "Check_Overflow_Policy<VT>", "bic": "Bounded_Integer_Coefficient_Policy",
             "ext": "Extended_Number_Policy"}
 
+PREDS = [("classify", "CLASSIFY", False), ("is_nan", "PRED1B", False), ("is_minf", "PRED1B", False), ("is_pinf", "PRED1B", False), ("is_int", "PRED1B", False),
+         ("assign_special", "SPECIAL", False), ("sgn", "PRED1", False), ("sgn", "PRED1", True), ("cmp", "PRED2", False), ("cmp", "PRED2", True),
+         ("lt", "PRED2B", True), ("le", "PRED2B", True), ("gt", "PRED2B", True), ("ge", "PRED2B", True), ("eq", "PRED2B", True), ("ne", "PRED2B", True)]
 OPS = [  # name, arity
  ("assign", "UN"), ("floor", "UN"), ("ceil", "UN"), ("trunc", "UN"), ("neg", "UN"), ("abs", "UN"), ("sqrt", "UN"),
  ("add", "BIN"), ("sub", "BIN"), ("mul", "BIN"), ("div", "BIN"), ("idiv", "BIN"), ("rem", "BIN"),
+ ("add_mul", "FMA"), ("sub_mul", "FMA"),
  ("add_2exp", "EXP"), ("sub_2exp", "EXP"), ("mul_2exp", "EXP"), ("div_2exp", "EXP"), ("umod_2exp", "EXP"), ("smod_2exp", "EXP"),
 ]
-HEAVY = {"mul", "div", "idiv", "rem", "sqrt"}   # division / multiplication circuits: costly at 32/64 bit
+HEAVY = {"mul", "div", "idiv", "rem", "sqrt", "add_mul", "sub_mul"}   # division / multiplication circuits: costly at 32/64 bit
 
 def unit_for(tt, pp):
     cxx, w, sg = TYPES[tt]
@@ -24,27 +28,52 @@ def unit_for(tt, pp):
                 defs={"VT": '"%s"' % cxx if False else cxx, "VP": POLICIES[pp], "T_W": w, "T_SIGNED": sg},
                 roots="re:^(w_|ENC_|POL_)", stubs=["common.c"])
 
-def op_task(u, tt, pp, op, ar, ext, tight=False, prop="C11"):
+XSTR = "#define XSTR(a) STR(a)\n#define STR(a) #a\n"
+DIR_REACH = [("round down", "(dir & 7u) == 0u"), ("round up", "(dir & 7u) == 1u"), ("round ignore", "(dir & 7u) == 6u")]
+ALWAYS_EXACT = ("assign", "floor", "ceil", "trunc", "umod_2exp", "smod_2exp", "idiv", "rem", "neg", "abs")
+
+def op_task(u, tt, pp, op, ar, ext, tight=False, prop="C11", timeout=900, bounded=None, extra_pre=None, tag=None):
     w = u.defs["T_W"]
     name = op + ("_ext" if ext else "")
     tu = "uint%d_t" % w
-    vars = [Var(tu, "to", snapshot=True), Var(tu, "x")]
-    if ar == "BIN": vars.append(Var(tu, "y")); args = "&to, &x, &y, dir"; proto = "T_u*, const T_u*, const T_u*, uint32_t"; xs = ("x", "y", "0")
-    elif ar == "UN": args = "&to, &x, dir"; proto = "T_u*, const T_u*, uint32_t"; xs = ("x", "0", "0")
-    else: vars.append(Var("uint32_t", "exp")); args = "&to, &x, exp, dir"; proto = "T_u*, const T_u*, uint32_t, uint32_t"; xs = ("x", "0", "exp")
-    vars.append(Var("uint32_t", "dir"))
-    native = {"decl": "#define XSTR(a) STR(a)\n#define STR(a) #a\nextern uint32_t real_fn(%s) __asm__(XSTR(FN_%s));" % (proto, name),
-              "pre": "  PRE(dir, dir_valid(dir)) PRE(operands, C_%s_PRE(%s, %s, %s))" % (name, xs[0], xs[1], xs[2]),
-              "call": "uint32_t r = real_fn(%s)" % args, "show": 'printf("  returned Result code r=0x%x\\n", r);',
-              "post": "C_%s_POSTS(r, to, to_old, %s, %s, %s, dir)" % (name, xs[0], xs[1], xs[2])}
-    bounded = None; timeout = 900
+    show = 'printf("  returned %s r=0x%%x\\n", (unsigned)r);' % ("Result code" if ar in ("UN", "BIN", "EXP", "FMA", "SPECIAL", "CLASSIFY") else "value")
+    reach = list(DIR_REACH)
+    rt = "uint32_t"
+    if ar in ("UN", "BIN", "EXP", "FMA"):
+        vars = [Var(tu, "to", snapshot=True), Var(tu, "x")]
+        if ar in ("BIN", "FMA"): vars.append(Var(tu, "y")); args = "&to, &x, &y, dir"; proto = "T_u*, const T_u*, const T_u*, uint32_t"; xs = ("x", "y", "0")
+        elif ar == "UN": args = "&to, &x, dir"; proto = "T_u*, const T_u*, uint32_t"; xs = ("x", "0", "0")
+        else: vars.append(Var("uint32_t", "exp")); args = "&to, &x, exp, dir"; proto = "T_u*, const T_u*, uint32_t, uint32_t"; xs = ("x", "0", "exp")
+        vars.append(Var("uint32_t", "dir"))
+        pre = "PRE(dir, dir_valid(dir)) PRE(operands, C_%s_PRE(%s, %s, %s))" % (name, xs[0], xs[1], xs[2])
+        if ar == "FMA": pre += " PRE(accumulator, %s)" % ("x_in_range(to)" if not ext else "pre_muladd_ext(to, x, y, %d)" % (1 if op == "sub_mul" else 0))
+        post = "C_%s_POSTS(r, to, to_old, %s, %s, %s, dir)" % (name, xs[0], xs[1], xs[2])
+        if op not in ALWAYS_EXACT: reach.append(("inexact or overflow", "r != 1u"))
+    elif ar == "SPECIAL":
+        vars = [Var(tu, "to", snapshot=True), Var("uint32_t", "c"), Var("uint32_t", "dir")]
+        args = "&to, c, dir"; proto = "T_u*, uint32_t, uint32_t"
+        pre = "PRE(dir, dir_valid(dir)) PRE(class, C_assign_special_PRE(c))"; post = "C_assign_special_POSTS(r, to, to_old, c, dir)"
+    elif ar == "CLASSIFY":
+        vars = [Var(tu, "x"), Var("_Bool", "nan"), Var("_Bool", "inf"), Var("_Bool", "sign")]
+        args = "&x, nan, inf, sign"; proto = "const T_u*, bool, bool, bool"
+        pre = ""; post = "C_classify_POSTS(r, x, nan, inf, sign)"; reach = [("sign asked", "sign"), ("nothing asked", "!nan && !inf && !sign")]
+    elif ar in ("PRED1", "PRED1B"):
+        vars = [Var(tu, "x")]; args = "&x"; proto = "const T_u*"; rt = "uint32_t" if ar == "PRED1" else "_Bool"
+        pre = "PRE(operands, C_%s_PRE(x, 0, 0))" % name; post = "C_%s_POSTS(r, 0, 0, x, 0, 0, 0)" % name; reach = [("answer nonzero", "r != 0")]
+    elif ar in ("PRED2", "PRED2B"):
+        vars = [Var(tu, "x"), Var(tu, "y")]; args = "&x, &y"; proto = "const T_u*, const T_u*"; rt = "uint32_t" if ar == "PRED2" else "_Bool"
+        pre = "PRE(operands, C_%s_PRE(x, y, 0))" % name; post = "C_%s_POSTS(r, 0, 0, x, y, 0, 0)" % name; reach = [("answer nonzero", "r != 0"), ("answer zero or other", "r != 1")]
+    else: raise ValueError(ar)
+    nrt = "bool" if rt == "_Bool" else rt
+    native = {"decl": XSTR + "extern %s real_fn(%s) __asm__(XSTR(FN_%s));" % (nrt, proto, name),
+              "pre": "  " + pre, "call": "%s r = real_fn(%s)" % (rt, args), "post": post, "show": show}
     defs = {"WITH_TIGHT": 1} if tight else {}
-    return Task("%s/%s/%s/%s" % (tt, pp, name, "tight" if tight else "sem"), u, "FN_" + name, ["C11/ops.h"], vars,
-                "uint32_t r = FN_%s(%s)" % (name, args), defs=defs, native=native, bounded=bounded, timeout=timeout,
-                reach=[("round down", "(dir & 7u) == 0u"), ("round up", "(dir & 7u) == 1u"), ("round ignore", "(dir & 7u) == 6u"),
-                       ("inexact or overflow", "r != 1u")] if op not in ("assign", "floor", "ceil", "trunc", "umod_2exp", "smod_2exp", "idiv", "rem", "neg", "abs") else
-                      [("round down", "(dir & 7u) == 0u"), ("round up", "(dir & 7u) == 1u")],
-                group="%s %s" % (tt, pp))
+    for v in vars:
+        if v.ctype == "_Bool": v.assume = None
+    t = Task("%s/%s/%s/%s" % (tt, pp, name, tag or ("tight" if tight else "sem")), u, "FN_" + name, ["C11/ops.h"], vars,
+             "%s r = FN_%s(%s)" % (rt, name, args), defs=defs, native=native, bounded=bounded, timeout=timeout, reach=reach,
+             group="%s %s" % (tt, pp), harness_pre=("  __CPROVER_assume(%s);" % extra_pre) if extra_pre else "")
+    return t
 
 def build(tier):
     units = []; tasks = []
@@ -60,6 +89,8 @@ def build(tier):
                 if ext and pp in ("cop", "bic") : continue     # no specials to handle: the ext layer is the native layer
                 if w >= 32 and op in HEAVY: continue            # TODO bounded stand-ins
                 tasks.append(op_task(u, tt, pp, op, ar, ext))
+        for (op, ar, ext) in PREDS:
+            tasks.append(op_task(u, tt, pp, op, ar, ext))
     return units, tasks
 
 def main(tier, only=None):
